@@ -148,3 +148,8 @@ PROPS["C15"] = {"theorems": [("GdslModel.Props.C15", "G.Sync." + t) for t in ["d
     "level_note": CORR_NOTE + " The lock programs' acquisition points are validated against the real code by the C17 scheduler correspondence.",
     "technique": "Lean 4 refinement proof (lock programs run alone = plain functions) + direct plain-vs-sync differential of the implementations + model correspondence",
     "design_ref": "DESIGN.md section 7, C15"}
+
+PROPS["C20"] = {"theorems": [], "oracles": ["c20", "mirror"],
+    "rule": "one case = a fresh small graph (all nodes also in a container), one loop (edge iterator out/in/adj; bfs, dfs, pfs-min, pfs-max, preorder, postorder; plain and transposed) whose body / closure runs a script: one operation (connect, try_connect, disconnect, isolate, is_connected, nested bfs, container insert/remove) at one step of the loop - every combination on 2-node graphs (every 6th in the quick tier), scripts that add edges for a bounded number of steps, and random scripts on graphs up to 7 nodes; all four flavours with the lock hook on. distinct_nontrivial = number of cases.",
+    "exhaustive": False,
+    "level_text": "", "level_note": CORR_NOTE, "technique": "", "design_ref": "DESIGN.md section 7, C20"}
